@@ -147,6 +147,16 @@ func oracleC08(x *Exec, so *StepObs) {
 				got = hookDocs[s.Marker][0]
 			}
 			if got != nil && !reflect.DeepEqual(want, got) {
+				if a, _ := getMap(want, "metadata")["annotations"].(map[string]interface{}); a != nil && wantH == 1 {
+					// is the only difference the final line break of a block scalar that ends the document?
+					if v, ok := a["verif/embedded"].(string); ok && strings.HasSuffix(v, "\n") {
+						a["verif/embedded"] = strings.TrimSuffix(v, "\n")
+						if reflect.DeepEqual(want, got) {
+							fail("unaltered", "hooks:final-block-scalar-loses-its-line-break", fmt.Sprintf("hook document %s (%s/%s) ends in a block scalar; the hook's manifest has the scalar without its final line break", s.Marker, s.Kind, s.Name))
+							return
+						}
+					}
+				}
 				fail("unaltered", dest+":"+s.Style, fmt.Sprintf("document %s differs from what the template produced", s.Marker))
 				return
 			}
@@ -385,7 +395,7 @@ func genC08(seed, index uint64, tier string) *Plan {
 		if k == "Namespace" {
 			s.Name = fmt.Sprintf("verif-ns%d", counters[k])
 		}
-		s.Style = g.Pick("", "", "", "crlf", "comment", "blanklead")
+		s.Style = g.Pick("", "", "", "crlf", "comment", "blanklead", "embedded")
 		if g.Chance(0.12) && k != "Namespace" {
 			// kept on uninstall: must not disturb the order in which the others are deleted
 			s.Keep = "keep"
